@@ -7,8 +7,8 @@ TRUSTED = [
     "ring, Lemmas/Fpx.lean): fp2 mul/sqr (basic and integ shapes, the qnr loops), fp2_inv, fp2_mul_art, fp2_mul_nor (every branch of the "
     "switch), fp3 mul/sqr/inv/mul_art, the quadratic levels fp4/fp8/fp12/fp16/fp18/fp48 (Karatsuba mul, complex sqr, inv, mul_art), the cubic "
     "levels fp6/fp9/fp24/fp54 (Karatsuba mul, Chung-Hasan sqr, inv, mul_art), fp6/fp9_mul_dxs, fp12_mul_dxs (both twist types), fp12_sqr_cyc "
-    "(Granger-Scott), fp12_sqr_pck (Karabina), fp12_back_cyc (regular branch; the exceptional branch is finding C10-F8 with a counter-theorem "
-    "and a proved repair), fpN_inv_cyc, fp8/fp16_sqr_cyc, the square-and-multiply loop of fpN_exp, the signed-digit loop of fpN_exp_cyc, "
+    "(Granger-Scott), fp12_sqr_pck (Karabina), fp12_back_cyc (regular branch, exceptional branch g2 = 0 and the identity: total on the "
+    "cyclotomic subgroup), fpN_inv_cyc, fp8/fp16_sqr_cyc, the square-and-multiply loop of fpN_exp, the signed-digit loop of fpN_exp_cyc, "
     "Montgomery's simultaneous inversion; the fp12 model as stacked by the driver evaluates to ring operations (end-to-end theorem)",
     "tools/translate_fpx.py regenerates 45 straight-line functions of src/fpx (mul_basic / sqr_basic / inv / mul_art of every level above "
     "fp3, fp6/fp9_mul_dxs, fp8/fp16_sqr_cyc, fp12_sqr_cyc_basic, fp12_sqr_pck_basic, fp12_back_cyc) into Lean on every run; "
@@ -19,7 +19,7 @@ TRUSTED = [
     "fp12_mul_dxs_basic (preprocessor and twist-type branches), fp2_mul_nor, and the loops",
     "the lazy-reduction / unreduced / integrated variants (*_lazyr, *_unr, *_integ, fpN_*_low on double-precision accumulators) are modelled by "
     "the same value-level formula as the basic variant; their carry handling (fp_addc_low/fp_subc_low corrections, fp_hlvd_low, the "
-    "operand ranges of fp2_norh_low) is compared with the specification on the presented lines only (finding C10-F7 lives there)",
+    "operand ranges of fp2_norh_low) is compared with the specification on the presented lines only (the repaired defect C10-F7 lived there)",
     "class C (compared with the generic quotient-ring specification on the presented lines only, not modelled): fpN_frb (the precomputed "
     "constant tables; the specification is the p-power map), the table construction / recoding glue and the compressed-squaring, sparse, GLS "
     "and simultaneous paths of fpN_exp_cyc*, fpN_exp_dig, fpN_conv_cyc, fpN_test_cyc, fpN_srt / fpN_is_sqr (judged by r*r = a and Euler's "
@@ -980,54 +980,7 @@ def matches_finding(f, r):
     m = re.match(r"fp(\d+)_(\w+)$", t[1])
     if not m:
         return False
-    n, name = int(m.group(1)), m.group(2)
-    v = r["verdict"]
-    if pred == "exp_dig_cyc_naf" and name == "exp_dig" and n >= 8:
-        # cyclotomic operand and an exponent whose NAF is longer than its binary expansion
-        g = int(t[4], 16)
-        return "expdig-cyc" in v and g > 0 and (3 * g).bit_length() - 1 > g.bit_length()
-    if pred == "test_cyc_zero" and n in (12, 18, 24, 48, 54) and name in ("test_cyc", "size_bin", "pck", "pck_max", "exp", "exp_dig"):
-        return all(c == "0" for c in t[3].split(","))
-    if pred == "pck_identity" and n in (18, 24, 48, 54) and name == "back_cyc":
-        # same code over the larger block fields: the driver tags the compressed identity; the element 1 itself must be accepted
-        return r["got"] == "err" and "back_cyc-identity" in v and t[3].split(",") != ["1"] + ["0"] * (n - 1)
-    if pred == "pck_identity" and n == 12 and name in ("back_cyc", "back_cyc_sim", "upk", "read_bin"):
-        if not (r["got"] == "err" and ("back_cyc-identity" in v or "upk-identity" in v)):
-            return False
-        # some operand carries the compressed identity WITHOUT being the element 1 itself (which the library must accept)
-        els = [x.split(",") for x in t[3:] if x.count(",") == 11]
-        one = ["1"] + ["0"] * 11
-        return any(all(e[i] == "0" for i in (2, 3, 4, 5, 6, 7, 10, 11)) and e != one for e in els)
-    if pred == "frb16_high" and n == 16 and name == "frb":
-        return 8 <= int(t[4]) <= 16
-    if pred == "back_cyc_g2zero" and n in (18, 24, 48, 54) and name == "back_cyc":
-        return "g2zero" in v
-    if pred == "back_cyc_g2zero" and n == 12:
-        if name in ("back_cyc", "back_cyc_sim", "upk"):
-            return "g2zero" in v
-        if name in ("exp", "exp_cyc", "exp_dig", "exp_cyc_sps", "exp_cyc_sim"):
-            # some a^(2^i) met by the compressed-squaring path has g2 = 0
-            T = TOWERS.get((r.get("cfg"), r.get("context")))
-            if T is None:
-                return False
-            try:
-                a = [int(x, 16) for x in t[3].split(",")]
-            except ValueError:
-                return False
-            for _ in range(72):
-                a = T[12].mul(a, a)
-                if a[6] == 0 and a[7] == 0:
-                    return True
-            return False
-    if pred == "fp54_frb_oob" and n == 54 and r.get("cfg") == "p569":
-        return name in ("frb", "test_cyc", "conv_cyc", "size_bin", "exp_dig", "exp_cyc", "sqr_cyc_basic", "sqr_cyc_lazyr", "sqr_pck_basic",
-                        "sqr_pck_lazyr", "inv_cyc", "back_cyc") and r["got"] != "err"
-    if pred == "fp54_back_cyc_dead_cases" and n == 54 and name == "back_cyc":
-        return r["got"] == "err" and ("back_cyc-identity" in v or "g2zero" in v)
-    if pred == "fp8_mul_dxs_room" and n == 8 and name == "mul_dxs":
-        return r.get("cfg") in ("p381", "p575")      # the FP_QNRES builds
-    if pred == "exp_cyc_sim_sign" and name == "exp_cyc_sim" and n in (12, 18, 24, 48):
-        return (t[4].startswith("-") != t[6].startswith("-")) and t[4].strip("-0") != "" and t[6].strip("-0") != ""
+    name = m.group(2)
     if pred == "exp_cyc_long" and name in ("exp", "exp_cyc", "exp_cyc_sim"):
         es = [x for x in t[4:] if re.match(r"^-?[0-9a-f]+$", x)]
         return r["got"] == "err" and any(int(e, 16).bit_length() > 256 for e in es)
